@@ -4,6 +4,7 @@ import (
 	"bytes"
 	"context"
 	"fmt"
+	"io"
 	"runtime"
 	"strings"
 	"sync"
@@ -608,6 +609,11 @@ type C04ServeCtx struct {
 	Calls []struct {
 		Kind int      `json:"kind"`
 		MD   []kit.KV `json:"md"`
+		// streaming handlers: SetHeader(H1), SendHeader(H2) - whose write may well be refused, the stream's context
+		// being done - and SetTrailer(T); whichever way the headers leave, the caller must get H1+H2 and T
+		H1 []kit.KV `json:"h1,omitempty"`
+		H2 []kit.KV `json:"h2,omitempty"`
+		T  []kit.KV `json:"t,omitempty"`
 	} `json:"calls"`
 	Ser   bool `json:"ser"`
 	Stats bool `json:"stats,omitempty"`
@@ -620,7 +626,10 @@ func genC04ServeCtx(t *rapid.T) C04ServeCtx {
 		c.Calls = append(c.Calls, struct {
 			Kind int      `json:"kind"`
 			MD   []kit.KV `json:"md"`
-		}{Kind: rapid.SampledFrom(allKinds).Draw(t, "kind"), MD: kit.GenMD(t, 5)})
+			H1   []kit.KV `json:"h1,omitempty"`
+			H2   []kit.KV `json:"h2,omitempty"`
+			T    []kit.KV `json:"t,omitempty"`
+		}{Kind: rapid.SampledFrom(allKinds).Draw(t, "kind"), MD: kit.GenMD(t, 5), H1: kit.GenMD(t, 3), H2: kit.GenMD(t, 3), T: kit.GenMD(t, 3)})
 	}
 	return c
 }
@@ -629,6 +638,7 @@ func execC04ServeCtx(t *testing.T, c C04ServeCtx) (v Verdict) {
 	n := len(c.Calls)
 	seen := make([]metadata.MD, n)
 	ran := make([]bool, n)
+	gotH, gotT, ended := make([]metadata.MD, n), make([]metadata.MD, n), make([]bool, n)
 	var mu sync.Mutex
 	res := kit.Bubble(t, func() {
 		svc := kit.NewSvc()
@@ -641,7 +651,13 @@ func execC04ServeCtx(t *testing.T, c C04ServeCtx) (v Verdict) {
 				mu.Unlock()
 			}
 			svc.Unary(fmt.Sprintf("u%d", i), func(ctx context.Context, req []byte) ([]byte, error) { rec(ctx); return req, nil })
-			svc.Stream(fmt.Sprintf("s%d", i), true, true, func(s grpcServerStream) error { rec(s.Context()); return nil })
+			svc.Stream(fmt.Sprintf("s%d", i), true, true, func(s grpcServerStream) error {
+				rec(s.Context())
+				_ = s.SetHeader(kit.MDOf(c.Calls[i].H1))
+				_ = s.SendHeader(kit.MDOf(c.Calls[i].H2)) // refused or not: the context is already done
+				s.SetTrailer(kit.MDOf(c.Calls[i].T))
+				return nil
+			})
 		}
 		w := kit.NewWorld(kit.Topo{Kind: "direct", Serialize: c.Ser, Clients: 1, Stats: c.Stats}, svc, nil, nil)
 		kit.Settle()
@@ -653,7 +669,12 @@ func execC04ServeCtx(t *testing.T, c C04ServeCtx) (v Verdict) {
 				_, _ = kit.Invoke(ctx, w.Conn(0), fmt.Sprintf("u%d", i), []byte("x"))
 			} else if cs, err := w.Conn(0).NewStream(ctx, kit.StreamDescFor(call.Kind), kit.FullMethod(fmt.Sprintf("s%d", i))); err == nil {
 				_ = cs.CloseSend()
-				_, _ = kit.RecvBytes(cs)
+				if _, err := kit.RecvBytes(cs); err == io.EOF {
+					hd, herr := cs.Header()
+					mu.Lock()
+					gotH[i], gotT[i], ended[i] = hd.Copy(), cs.Trailer().Copy(), herr == nil
+					mu.Unlock()
+				}
 			}
 			cancel()
 			kit.Settle()
@@ -664,7 +685,7 @@ func execC04ServeCtx(t *testing.T, c C04ServeCtx) (v Verdict) {
 	if res.Panic != nil {
 		v.failf("panic: %v\n%s", res.Panic, res.Stack)
 	}
-	started := 0
+	started, streamsEnded := 0, 0
 	for i, call := range c.Calls {
 		if !ran[i] {
 			continue // whether goat still starts handlers then is not C04's business
@@ -673,8 +694,18 @@ func execC04ServeCtx(t *testing.T, c C04ServeCtx) (v Verdict) {
 		if msg := kit.MDEqual(seen[i], kit.ModelMD(call.MD), ":authority", "content-type", "user-agent", "grpc-timeout"); msg != "" {
 			v.failf("call %d (%s) served after the Serve context had ended: request metadata seen by the handler: %s", i, kit.KindNames[call.Kind], msg)
 		}
+		if call.Kind != kit.KindUnary && ended[i] {
+			// the stream ended successfully for its caller: the handler's headers and trailers came with it
+			streamsEnded++
+			if msg := kit.MDEqual(gotH[i], kit.ModelMD(append(append([]kit.KV{}, call.H1...), call.H2...)), "content-type"); msg != "" {
+				v.failf("call %d (%s) served after the Serve context had ended: headers seen by the caller (SetHeader + a SendHeader on a context that is done): %s", i, kit.KindNames[call.Kind], msg)
+			}
+			if msg := kit.MDEqual(gotT[i], kit.ModelMD(call.T)); msg != "" {
+				v.failf("call %d (%s) served after the Serve context had ended: trailers seen by the caller: %s", i, kit.KindNames[call.Kind], msg)
+			}
+		}
 	}
-	v.Info = kit.CaseInfo{Labels: []string{"servectx-ended", fmt.Sprintf("servectx.handlers_started=%v", started > 0)}, NonTrivial: started > 0, Key: fmt.Sprintf("%+v", c), Sample: c}
+	v.Info = kit.CaseInfo{Labels: []string{"servectx-ended", fmt.Sprintf("servectx.handlers_started=%v", started > 0), fmt.Sprintf("servectx.stream_completed=%v", streamsEnded > 0)}, NonTrivial: started > 0, Key: fmt.Sprintf("%+v", c), Sample: c}
 	return
 }
 
